@@ -308,17 +308,19 @@ Qed.
 
 (* ---- reading the specification backwards ---- *)
 
-Lemma spec_of_inv h addr sids ads q cap : spec_of h addr sids ads q = Ok cap ->
+Lemma spec_of_inv h addr sids ads q cap v : spec_of h addr sids ads q = Ok (cap, v) ->
   exists d0 p d params data,
     init_dict h (a_headers q) = Ok d0 /\ adapters_pre ads (a_path q, d0) = Ok (p, d) /\
     read_params h (a_params q) = Ok params /\ read_body h (a_data q) = Ok data /\
-    cap = snd (assemble addr sids ads p (a_meth q) params data d).
+    cap = snd (assemble addr sids ads p (a_meth q) params data d) /\
+    respond ads (a_raw q) (a_resp q) = Ok v.
 Proof.
   unfold spec_of. destruct (init_dict h (a_headers q)) as [d0|] eqn:E0; [|discriminate].
   destruct (adapters_pre ads (a_path q, d0)) as [[p d]|] eqn:E1; [|discriminate].
   destruct (read_params h (a_params q)) as [params|] eqn:E2; [|discriminate].
   destruct (read_body h (a_data q)) as [data|] eqn:E3; [|discriminate].
-  intros [= <-]. exists d0, p, d, params, data. auto.
+  destruct (respond ads (a_raw q) (a_resp q)) as [v'|] eqn:E4; cbn [bind]; [|discriminate].
+  intros [= <- <-]. exists d0, p, d, params, data. auto 6.
 Qed.
 
 (* ---- clone ---- *)
@@ -435,37 +437,38 @@ Proof.
   destruct a; cbn [auth_value] in Ea; try discriminate; destruct E2 as [_ (ak' & sk' & v' & _ & Md & _)]; exact Md.
 Qed.
 
-Lemma request_inv st i c q ra cap : wf_state st ->
+Lemma request_inv st i c q ra cap v : wf_state st ->
   nth_error (conns st) i = Some c -> resolve st q = Ok ra ->
-  snd (step st (ORequest i q)) = Ok (OReq cap) ->
+  snd (step st (ORequest i q)) = Ok (OReq cap v) ->
   exists d0 p d params data,
     init_dict (heap_of st) (a_headers ra) = Ok d0 /\ adapters_pre (flat_own c) (a_path ra, d0) = Ok (p, d) /\
     read_params (heap_of st) (a_params ra) = Ok params /\ read_body (heap_of st) (a_data ra) = Ok data /\
-    cap = snd (assemble (fst (conn_root c)) (snd (conn_root c)) (flat_own c) p (a_meth ra) params data d).
+    cap = snd (assemble (fst (conn_root c)) (snd (conn_root c)) (flat_own c) p (a_meth ra) params data d) /\
+    respond (flat_own c) (a_raw ra) (a_resp ra) = Ok v.
 Proof.
   intros W Ec Er H. rewrite (request_obs _ _ _ _ _ W Ec Er) in H.
-  destruct (spec_of (heap_of st) (fst (conn_root c)) (snd (conn_root c)) (flat_own c) ra) as [cap'|e] eqn:E;
+  destruct (spec_of (heap_of st) (fst (conn_root c)) (snd (conn_root c)) (flat_own c) ra) as [[cap' v']|e] eqn:E;
     cbn [omap] in H; [|discriminate].
-  injection H as <-. apply spec_of_inv. exact E.
+  injection H as <- <-. apply spec_of_inv. exact E.
 Qed.
 
-Lemma request_one_auth_l st i c q ra cap ads1 a ads2 ak sk v : wf_state st ->
+Lemma request_one_auth_l st i c q ra cap rv ads1 a ads2 ak sk v : wf_state st ->
   nth_error (conns st) i = Some c -> resolve st q = Ok ra ->
   flat_own c = ads1 ++ a :: ads2 -> auth_value a = Some (ak, sk, v) ->
   Forall (fun x => is_auth x = false) ads1 -> Forall (fun x => is_auth x = false) ads2 ->
-  snd (step st (ORequest i q)) = Ok (OReq cap) ->
+  snd (step st (ORequest i q)) = Ok (OReq cap rv) ->
   dict_get auth_key (q_headers cap) = Some v /\ NoDup (map fst (q_headers cap)).
 Proof.
   intros W Ec Er Ef Ea F1 F2 H.
-  destruct (request_inv _ _ _ _ _ _ W Ec Er H) as (d0 & p & d & params & data & _ & Hp & _ & _ & ->).
+  destruct (request_inv _ _ _ _ _ _ _ W Ec Er H) as (d0 & p & d & params & data & _ & Hp & _ & _ & -> & _).
   rewrite Ef in Hp |- *.
   exact (one_auth_l ads1 a ads2 ak sk v _ _ (a_path ra) _ _ _ d0 p d Ea F1 F2
            (one_auth_pre _ _ _ _ _ _ _ _ _ _ Ea F1 Hp) Hp).
 Qed.
 
-Lemma request_shape_l st i c q ra cap : wf_state st ->
+Lemma request_shape_l st i c q ra cap rv : wf_state st ->
   nth_error (conns st) i = Some c -> resolve st q = Ok ra ->
-  snd (step st (ORequest i q)) = Ok (OReq cap) ->
+  snd (step st (ORequest i q)) = Ok (OReq cap rv) ->
   exists params data,
     read_params (heap_of st) (a_params ra) = Ok params /\ read_body (heap_of st) (a_data ra) = Ok data /\
     let p := fold_left (fun s pre => join_prefix pre s) (prefixes (flat_own c)) (a_path ra) in
@@ -485,8 +488,125 @@ Lemma request_shape_l st i c q ra cap : wf_state st ->
     q_resp cap = rev (tags (flat_own c)).
 Proof.
   intros W Ec Er H.
-  destruct (request_inv _ _ _ _ _ _ W Ec Er H) as (d0 & p & d & params & data & _ & Hp & Hpa & Hb & ->).
+  destruct (request_inv _ _ _ _ _ _ _ W Ec Er H) as (d0 & p & d & params & data & _ & Hp & Hpa & Hb & -> & _).
   exists params, data. split; [exact Hpa|]. split; [exact Hb|]. cbn zeta.
   rewrite <- (adapters_pre_path _ _ _ _ _ Hp).
   split; [apply assemble_url|]. split; [apply assemble_body|]. split; [apply assemble_method|apply assemble_resp].
+Qed.
+
+(* ---- the response path: every processor of the list once, over the reversed list, raw or decoded ---- *)
+
+(* the marks the harness's tag adapters leave around a returned value, outermost first; the value inside *)
+Fixpoint marks (v : rval) : list Z := match v with RMark k v' => k :: marks v' | _ => [] end.
+Fixpoint unmarked (v : rval) : rval := match v with RMark _ v' => unmarked v' | _ => v end.
+
+(* processors of the list applied so that the FIRST adapter's is the outermost (= the last to run) *)
+Definition post_chain (ads : list adapter) (b : rval) : rval := fold_right adapter_post b ads.
+
+Lemma post_loop_rev ads b : post_loop ads b = fold_left (fun v a => adapter_post a v) (rev ads) b.
+Proof. unfold post_loop. rewrite resp_reversed_true. reflexivity. Qed.
+
+Lemma post_loop_chain ads b : post_loop ads b = post_chain ads b.
+Proof.
+  rewrite post_loop_rev. unfold post_chain.
+  rewrite <- (rev_involutive ads) at 2. rewrite fold_left_rev_right. reflexivity.
+Qed.
+
+Lemma post_chain_app l1 l2 b : post_chain (l1 ++ l2) b = post_chain l1 (post_chain l2 b).
+Proof. unfold post_chain. apply fold_right_app. Qed.
+
+Lemma marks_post_chain ads b : marks (post_chain ads b) = tags ads ++ marks b.
+Proof.
+  unfold post_chain, tags. induction ads as [|a ads IH]; cbn [fold_right flat_map app]; [reflexivity|].
+  destruct a; cbn [adapter_post tag_of app marks]; rewrite IH; reflexivity.
+Qed.
+
+Lemma unmarked_post_chain ads b : unmarked (post_chain ads b) = unmarked b.
+Proof.
+  unfold post_chain. induction ads as [|a ads IH]; cbn [fold_right]; [reflexivity|].
+  destruct a; cbn [adapter_post unmarked]; exact IH.
+Qed.
+
+(* what the code hands to the first processor: never something a processor made *)
+Definition is_base (v : rval) : Prop := match v with RMark _ _ => False | _ => True end.
+
+Lemma is_base_marks v : is_base v -> marks v = [] /\ unmarked v = v.
+Proof. destruct v; cbn [is_base marks unmarked]; tauto. Qed.
+
+Lemma response_base_cases raw resp b : response_base raw resp = Ok b ->
+  is_base b /\
+  (if raw then b = RRaw (r_code resp) (r_body resp)
+   else (decode_utf8 (r_body resp) = Some [] /\ b = RText []) \/
+        (exists c s js, decode_utf8 (r_body resp) = Some (c :: s) /\ r_json resp = Some js /\ b = RJson js)).
+Proof.
+  unfold response_base. destruct raw.
+  - intros [= <-]. split; [exact I|reflexivity].
+  - destruct (decode_utf8 (r_body resp)) as [[|c s]|]; try discriminate.
+    + intros [= <-]. split; [exact I|]. left. auto.
+    + destruct (r_json resp) as [js|]; [|discriminate]. intros [= <-]. split; [exact I|]. right. eauto 6.
+Qed.
+
+Lemma respond_spec ads raw resp :
+  respond ads raw resp =
+  if 400 <=? r_code resp then Err OtherErr
+  else bind (response_base raw resp) (fun b => Ok (post_chain ads b)).
+Proof.
+  unfold respond, opener_open. destruct (400 <=? r_code resp); cbn [bind]; [reflexivity|].
+  destruct (response_base raw resp) as [b|e]; cbn [bind]; [|reflexivity]. rewrite post_loop_chain. reflexivity.
+Qed.
+
+Lemma respond_chain_l ads raw resp v : respond ads raw resp = Ok v ->
+  exists b, r_code resp < 400 /\ response_base raw resp = Ok b /\ is_base b /\
+    v = fold_left (fun v a => adapter_post a v) (rev ads) b /\
+    v = post_chain ads b /\
+    marks v = tags ads /\ unmarked v = b.
+Proof.
+  rewrite respond_spec. destruct (Z.leb_spec 400 (r_code resp)) as [G|L]; [discriminate|].
+  destruct (response_base raw resp) as [b|e] eqn:E; cbn [bind]; [|discriminate]. intros [= <-].
+  destruct (response_base_cases _ _ _ E) as [B _]. destruct (is_base_marks _ B) as [M U].
+  exists b. split; [exact L|]. split; [reflexivity|]. split; [exact B|].
+  split; [rewrite <- post_loop_rev; symmetry; apply post_loop_chain|]. split; [reflexivity|].
+  split; [rewrite marks_post_chain, M, app_nil_r; reflexivity|rewrite unmarked_post_chain; exact U].
+Qed.
+
+Lemma http_error_l ads raw resp : 400 <= r_code resp -> respond ads raw resp = Err OtherErr.
+Proof. intros G. rewrite respond_spec. destruct (Z.leb_spec 400 (r_code resp)); [reflexivity|lia]. Qed.
+
+Lemma response_processed_l st i c q ra cap v : wf_state st ->
+  nth_error (conns st) i = Some c -> resolve st q = Ok ra ->
+  snd (step st (ORequest i q)) = Ok (OReq cap v) ->
+  exists b, response_base (a_raw ra) (a_resp ra) = Ok b /\ is_base b /\
+    v = fold_left (fun v a => adapter_post a v) (rev (flat_own c)) b /\
+    v = post_chain (flat_own c) b /\
+    marks v = tags (flat_own c) /\ unmarked v = b /\
+    q_resp cap = rev (tags (flat_own c)).
+Proof.
+  intros W Ec Er H.
+  destruct (request_inv _ _ _ _ _ _ _ W Ec Er H) as (d0 & p & d & params & data & _ & _ & _ & _ & -> & R).
+  destruct (respond_chain_l _ _ _ _ R) as (b & _ & E & B & V1 & V2 & M & U).
+  exists b. rewrite assemble_resp. auto 10.
+Qed.
+
+Lemma call_response_processed_l st i m comps q ra cap v : wf_state st ->
+  nth_error (callers st) i = Some m -> resolve st q = Ok ra ->
+  snd (step st (OCall i comps q)) = Ok (OReq cap v) ->
+  exists pre b, comp_chain (m_map m) comps = Ok pre /\
+    response_base (a_raw ra) (a_resp ra) = Ok b /\ is_base b /\
+    v = post_chain (pre ++ flat_own (m_conn m)) b /\
+    marks v = tags (flat_own (m_conn m)) /\ unmarked v = b.
+Proof.
+  intros W Em Er H. rewrite (call_obs _ _ _ _ _ _ W Em Er) in H.
+  destruct (comp_chain (m_map m) comps) as [pre|e] eqn:Ecc; [|discriminate].
+  destruct (spec_of _ _ _ _ ra) as [[cap' v']|e] eqn:E; cbn [omap] in H; [|discriminate].
+  injection H as <- <-.
+  apply spec_of_inv in E as (d0 & p & d & params & data & _ & _ & _ & _ & _ & R).
+  destruct (respond_chain_l _ _ _ _ R) as (b & _ & Eb & B & _ & V2 & M & U).
+  exists pre, b. split; [reflexivity|]. split; [exact Eb|]. split; [exact B|]. split; [exact V2|]. split; [|exact U].
+  rewrite M. unfold tags. rewrite flat_map_app. fold (tags (flat_own (m_conn m))).
+  assert (P : flat_map tag_of pre = []).
+  { unfold comp_chain in Ecc. destruct comps as [cs|]; [|injection Ecc as <-; reflexivity].
+    destruct (filter _ cs) as [|x [|y r]]; try discriminate.
+    destruct (map_get x (m_map m)) as [pp|]; [|discriminate]. injection Ecc as <-.
+    unfold prefix_ads. destruct (nonempty pp); reflexivity. }
+  rewrite P. reflexivity.
 Qed.
